@@ -867,6 +867,15 @@ class Emitter:
             t = I['type']
             r = self.resolve(t)
             p = self.cv(*I['ptr'])
+            if r[0] == 'int' and r[1] in (24, 40, 48, 56) and not self.scale:
+                # byte-multiple odd width (coerced small structs such as PtAsgn = i40): little-endian pieces of 4/2/1 bytes
+                parts, off, left = [], 0, r[1] // 8
+                for sz in (4, 2, 1):
+                    while left >= sz:
+                        parts.append('((%s)*(uint%d_t *)((uint8_t *)%s + %d) << %d)' % (uint_ct(r[1]), 8 * sz, p, off, 8 * off))
+                        off += sz; left -= sz
+                body.append('%s = (%s);' % (res, ' | '.join(parts)))
+                return
             if r[0] == 'int' and r[1] not in (1, 8, 16, 32, 64, 128):
                 raise IRError('load of i%d' % r[1])
             self.ct(t, True)
@@ -878,6 +887,13 @@ class Emitter:
         if op == 'store':
             t, v = I['val']
             r = self.resolve(t)
+            if r[0] == 'int' and r[1] in (24, 40, 48, 56) and not self.scale:
+                pp, vv, off, left = self.cv(*I['ptr']), self.cv(t, v), 0, r[1] // 8
+                for sz in (4, 2, 1):
+                    while left >= sz:
+                        body.append('*(uint%d_t *)((uint8_t *)%s + %d) = (uint%d_t)((%s)(%s) >> %d);' % (8 * sz, pp, off, 8 * sz, uint_ct(r[1]), vv, 8 * off))
+                        off += sz; left -= sz
+                return
             if r[0] == 'int' and r[1] not in (1, 8, 16, 32, 64, 128):
                 raise IRError('store of i%d' % r[1])
             if r[0] == 'array':
